@@ -4,7 +4,8 @@
 set -e
 P=$1
 cd /verif
-git merge --no-commit --no-ff wip-$P >/dev/null 2>&1 || true
+git checkout -- evidence 2>/dev/null || true
+git merge --no-commit --no-ff wip-$P >/tmp/merge_$P.log 2>&1 || true
 for f in MANIFEST.json known_findings.jsonl lean/lakefile.toml; do
   git checkout --ours -- $f 2>/dev/null || true
   git add -- $f 2>/dev/null || true
@@ -15,6 +16,7 @@ python3 tools/gen_lakefile.py >/dev/null
 python3-vt tools/mkmanifest.py
 git add -A
 git commit -q -m "Merge builder branch wip-$P" || true
+git merge-base --is-ancestor wip-$P HEAD || { echo "MERGE OF wip-$P DID NOT HAPPEN:"; cat /tmp/merge_$P.log; exit 1; }
 cd /repo && git checkout -- test_reports
 BASE=$(git merge-base main fix-$P)
 N=$(git rev-list --count $BASE..fix-$P)
